@@ -13,5 +13,7 @@ CONSTANTS
   MaxStore = 2
   CtxMode = "ignored"
   MaxStalls = 2
+  StaleNextHop = FALSE
   Tails = TRUE
+  Vias <- ViasBoth
 INVARIANTS Emit RunAgrees
